@@ -10,6 +10,10 @@
 (*   send.w send.r   try_send of the record (a full write channel: retry)    *)
 (*   sync.lock       taking the deques mutex (Inner::sync), enabled when free*)
 (*   m.read m.write  one queued record;  m.expire  m.evict  the two scans    *)
+(*   m.w2            handle_upsert between its residency check (one access   *)
+(*                   to the map, guard released) and everything that follows *)
+(*   m.w3            handle_upsert about to remove the candidate's own map   *)
+(*                   entry (dead / oversize / rejected): remove_if           *)
 (*   m.end           publish the counters, release mutex (and the flag)      *)
 (*   adv             the harness advances the mock clock                     *)
 (*                                                                           *)
@@ -22,6 +26,7 @@ TIds == 1..Threads
 
 \* thread-local state
 \* ts: the clock reading the operation took at its map access (housekeeping is judged against it)
+NoRec == [t |-> "none"]
 ThInit(prog) == [prog |-> prog, ip |-> 1, pc |-> "", rec |-> [t |-> "none"], after |-> "", res |-> None, ts |-> 0]
 
 FirstTag(o) ==
@@ -38,7 +43,7 @@ PcAt(th) == IF th.ip > Len(th.prog) THEN "done" ELSE IF th.pc = "" THEN FirstTag
 \* the whole system
 GInit(cfg, progs) ==
     [s |-> SInit(cfg), th |-> [t \in TIds |-> ThInit(progs[t])], mtx |-> 0, hkrun |-> 0,
-     m |-> [c |-> <<0, 0>>, calls |-> 0, rleft |-> 0, wleft |-> 0, hk |-> FALSE]]
+     m |-> [c |-> <<0, 0>>, calls |-> 0, rleft |-> 0, wleft |-> 0, hk |-> FALSE, pend |-> NoRec]]
 
 Done(g, t) == PcAt(g.th[t]) = "done"
 AllDone(g) == \A t \in TIds : Done(g, t)
@@ -115,14 +120,34 @@ Step(g, t) ==
                   ELSE [g EXCEPT !.s.infl = @ \ {th.rec}], t, th.res)
       [] pc = "sync.lock" ->
            LoopTop([g EXCEPT !.mtx = t, !.m = [c |-> <<s.ec, s.ws>>, calls |-> 0, rleft |-> 0, wleft |-> 0,
-                                               hk |-> (g.hkrun = t)]], t)
+                                               hk |-> (g.hkrun = t), pend |-> NoRec]], t)
       [] pc = "m.read" ->
            LET g1 == [g EXCEPT !.s = ApplyRead([s EXCEPT !.rch = Tail(s.rch)], Head(s.rch)), !.m.rleft = @ - 1]
            IN IF g1.m.rleft = 0 \/ g1.s.rch = <<>> THEN WritesTop(g1, t) ELSE g1
       [] pc = "m.write" ->
-           LET r == ApplyWrite([s EXCEPT !.wch = Tail(s.wch)], g.m.c, Head(s.wch))
-               g1 == [g EXCEPT !.s = r[1], !.m.c = r[2], !.m.wleft = @ - 1]
-           IN IF g1.m.wleft = 0 \/ g1.s.wch = <<>> THEN LoopEnd(g1, t) ELSE g1
+           LET rec == Head(s.wch)
+               sP == [s EXCEPT !.wch = Tail(s.wch)]
+           IN IF rec.t = "U" /\ ~sP.info[rec.i].adm /\ sP.map[rec.k].p /\ sP.map[rec.k].i = rec.i
+              THEN \* an entry not admitted yet that is still in the map: the residency check is a
+                   \* step of its own, the record stays with the maintenance thread meanwhile
+                   Goto([g EXCEPT !.s = [sP EXCEPT !.info[rec.i].dirty = FALSE, !.infl = @ \cup {rec}],
+                                  !.m.pend = rec], t, "m.w2")
+              ELSE LET r == ApplyWrite(sP, g.m.c, rec)
+                       g1 == [g EXCEPT !.s = r[1], !.m.c = r[2], !.m.wleft = @ - 1]
+                   IN IF g1.m.wleft = 0 \/ g1.s.wch = <<>> THEN LoopEnd(g1, t) ELSE g1
+      [] pc = "m.w2" ->
+           LET d == UpsertDecide([s EXCEPT !.infl = @ \ {g.m.pend}], g.m.c, g.m.pend)
+               g1 == [g EXCEPT !.s = d.s, !.m.c = d.c, !.m.wleft = @ - 1, !.m.pend = NoRec]
+           IN IF d.kind = "done"
+              THEN IF g1.m.wleft = 0 \/ g1.s.wch = <<>> THEN LoopEnd(g1, t) ELSE Goto(g1, t, "m.write")
+              ELSE \* the candidate's own map entry is to be removed: one more access to the map
+                   Goto([g EXCEPT !.s = [d.s EXCEPT !.infl = @ \cup {g.m.pend}], !.m.c = d.c,
+                                  !.m.pend = g.m.pend @@ [kind |-> d.kind, skipped |-> d.skipped]], t, "m.w3")
+      [] pc = "m.w3" ->
+           LET rec == [f \in DOMAIN g.m.pend \ {"kind", "skipped"} |-> g.m.pend[f]]
+               r == UpsertFinish([s EXCEPT !.infl = @ \ {rec}], g.m.c, rec, g.m.pend)
+               g1 == [g EXCEPT !.s = r[1], !.m.c = r[2], !.m.wleft = @ - 1, !.m.pend = NoRec]
+           IN IF g1.m.wleft = 0 \/ g1.s.wch = <<>> THEN LoopEnd(g1, t) ELSE Goto(g1, t, "m.write")
       [] pc = "m.expire" ->
            LET r == EvictExpired(s, g.m.c) IN EvictTop([g EXCEPT !.s = r[1], !.m.c = r[2]], t)
       [] pc = "m.evict" ->
@@ -145,7 +170,7 @@ GCanon(g) == [g EXCEPT !.s = Canon(g.s)]
 (* monitor keeps the set of same-key writes that had returned when it was    *)
 (* invoked; that is all the real-time order the property needs.              *)
 
-P02Init == [wr |-> {}, gets |-> {}, seen |-> {}]
+P02Init == [wr |-> {}, gets |-> {}, seen |-> {}, hit |-> [k \in Keys |-> None]]
 \* wr: [id, k, v (None for invalidate), done, obs, pred, ia, tlo, thi]; gets: [id, k, pred] in flight;
 \* obs: a get has returned the value of this insert, so the insert has taken effect although it may
 \* not have returned yet: from then on it precedes every operation invoked later, exactly as if it
@@ -169,7 +194,7 @@ P02Update(ps, e) ==
                                       pred |-> {w.id : w \in {x \in ps.wr :
                                                   (e.op = "InvalidateAll" \/ OnKey(x, e.k)) /\ (x.done \/ x.obs)}}]}]
       [] e.ev = "Inv" /\ e.op = "Get" ->
-           [ps EXCEPT !.gets = @ \cup {[id |-> e.id, k |-> e.k,
+           [ps EXCEPT !.gets = @ \cup {[id |-> e.id, k |-> e.k, t0 |-> ClockOf(e),
                                         pred |-> {w.id : w \in {x \in ps.wr : OnKey(x, e.k) /\ (x.done \/ x.obs)}}]}]
       [] e.ev = "Ret" /\ \E w \in ps.wr : w.id = e.id ->
            [ps EXCEPT !.wr = {IF w.id = e.id
@@ -179,6 +204,7 @@ P02Update(ps, e) ==
            LET q == CHOOSE x \in ps.gets : x.id = e.id
                others == {x \in ps.seen : ~(x[1] = e.t /\ x[2] = WriterOf(e.r) /\ x[3] = q.k)}
            IN [ps EXCEPT !.gets = @ \ {q},
+                         !.hit[q.k] = IF e.r = None THEN @ ELSE Max(@, ClockOf(e)),
                          !.wr = IF e.r = None THEN @
                                 ELSE {IF w.k = q.k /\ w.v = e.r /\ ~w.done /\ ~w.obs
                                       THEN [w EXCEPT !.obs = TRUE, !.thi = Max(@, ClockOf(e))] ELSE w : w \in ps.wr},
@@ -205,5 +231,48 @@ Allowed_C02(ps, e) ==
               \E w \in WroteIt(ps, e.items[i].k, e.items[i].v) :
                  ~\E x \in ps.wr : OnKey(x, w.k) /\ x.id # w.id /\ w.id \in x.pred /\ (x.ia => w.thi < x.tlo)
       [] OTHER -> TRUE
+
+-----------------------------------------------------------------------------
+(* The monitors of C05 and C06 under interleavings, on the same events (every *)
+(* Inv / Ret carries the reading of the expiration clock).  They are upper    *)
+(* bounds, as in the sequential case: a get must not return a value whose     *)
+(* write, or whose last access, is CERTAINLY too old.  thi of an insert is    *)
+(* the latest reading at which it can have written (its return, or the return *)
+(* of the first get that saw its value); hit[k] is the latest reading at      *)
+(* which a completed get of k can have touched the entry; t0 is the reading   *)
+(* at which the judged get was invoked, the earliest at which it can have     *)
+(* looked.  Operations still in flight can have happened at any reading up to *)
+(* now, so they make the monitor silent.                                      *)
+
+Allowed_C05c(cfg, ps, e) ==
+    IF e.ev = "Ret" /\ (\E q \in ps.gets : q.id = e.id) /\ e.r # None /\ cfg.ttl # None
+    THEN LET q == CHOOSE x \in ps.gets : x.id = e.id
+         IN \A w \in WroteIt(ps, q.k, e.r) : (w.done \/ w.obs) => q.t0 < w.thi + cfg.ttl
+    ELSE TRUE
+
+Allowed_C06c(cfg, ps, e) ==
+    IF e.ev = "Ret" /\ (\E q \in ps.gets : q.id = e.id) /\ e.r # None /\ cfg.tti # None
+    THEN LET q == CHOOSE x \in ps.gets : x.id = e.id
+             ins == {w \in ps.wr : w.k = q.k /\ w.v # None}
+             certainlyIdle ==
+                 /\ \A w \in ins : (w.done \/ w.obs) /\ q.t0 >= w.thi + cfg.tti
+                 /\ ps.hit[q.k] = None \/ q.t0 >= ps.hit[q.k] + cfg.tti
+                 /\ ~\E x \in ps.gets : x.id # q.id /\ x.k = q.k
+         IN ins = {} \/ ~certainlyIdle
+    ELSE TRUE
+
+\* C03 / C16 under interleavings: what the final iteration (after the threads have stopped and
+\* maintenance has run to quiescence) must yield.  Where nothing can expire and every key fits
+\* (unit weights, at least as much capacity as keys: no eviction is ever legitimate), an insert
+\* that is unambiguously the last write of its key (every other write of the key, invalidate_all
+\* included, had returned before it was invoked) must still be there with its value.
+Allowed_C03c(cfg, ps, e) ==
+    (e.ev = "Final" /\ cfg.ttl = None /\ cfg.tti = None /\ (cfg.cap = None \/ (~cfg.weigher /\ cfg.nkeys <= cfg.cap))) =>
+        \A w \in ps.wr :
+            (w.v # None /\ w.done /\ \A x \in ps.wr : (x.id # w.id /\ OnKey(x, w.k)) => x.id \in w.pred)
+            => \E i \in DOMAIN e.items : e.items[i].k = w.k /\ e.items[i].v = w.v
+
+NT_C05c(cfg, ps, e) == e.ev = "Ret" /\ (\E q \in ps.gets : q.id = e.id) /\ cfg.ttl # None
+NT_C06c(cfg, ps, e) == e.ev = "Ret" /\ (\E q \in ps.gets : q.id = e.id) /\ cfg.tti # None
 
 =============================================================================
